@@ -216,7 +216,7 @@ CHECKS = {
         design="6/C13",
     ),
     "C10": dict(
-        text=("89 theorems: for all families (ties included) the step-up loop equals the textbook step-up rule "
+        text=("93 theorems: for all families (ties included) the step-up loop equals the textbook step-up rule "
               "(rejection flags, running-min adjusted p-values, adjusted alphas), the step-down loop equals Holm's rule; "
               "flagged rejected iff pvalue <= alpha_adj, and iff pvalue_adj <= alpha (exact arithmetic); adjusted "
               "p-values in [pvalue,1] and order-preserving; the GENERATED Benjamini/Bonferroni adjust functions give "
@@ -227,9 +227,11 @@ CHECKS = {
               "stable sort and the write-back by input position, permuting the input p-values permutes pvalue_adj and "
               "null_rejected with them, instantiated for all six generated procedures; alpha_adj order-dependent at ties (K2 witness). Tie: translator for "
               "adjust + exact correspondence of the hand-modelled loops on Fraction p-values; search vs textbook spec."),
-        note=NOTE_COMMON + "Loops, stable sort and result copying are hand-modelled; Sidak theorems take the power "
+        note=NOTE_COMMON + "The two loops are GENERATED too (Gen/MultLoops.lean: step function, initial state, enumerate start, "
+             "sort direction) and the model's loops are proved equal to them (Props/C10Gen.lean); the stable sort, the write-back "
+             "and result copying are hand-modelled; Sidak theorems take the power "
              "function as a parameter with the laws C10.RpowLaws (float ** is its rounding); purity (inputs left unmodified) is checked on every case, not proved.",
-        technique="Lean 4 proof (generated adjust + hand-modelled loops) + exact correspondence",
+        technique="Lean 4 proof (generated adjust functions and loops) + exact correspondence",
         design="6/C10",
     ),
     "C11": dict(
